@@ -77,6 +77,31 @@ func genMulti(r *gal.Rand, tier string) *Case {
 	for _, v := range virts {
 		provider[v] = gal.Pick(r, names)
 	}
+	// pure virtuals with several provider NAMES: provided without a version, by the best version of each
+	// provider only; the providers differ in provider priority
+	pure := map[string][]string{}
+	var pures []string
+	for k, pv := range []string{"cmd:sh", "virt-mta"} {
+		if r.Chance(1, 2+k) {
+			np := 2 + r.Intn(2)
+			if np > len(names) {
+				np = len(names)
+			}
+			pure[pv] = append([]string(nil), names[r.Intn(len(names)-np+1):][:np]...)
+			pures = append(pures, pv)
+		}
+	}
+	providesPure := func(nm string) []string {
+		var out []string
+		for _, pv := range pures {
+			for _, x := range pure[pv] {
+				if x == nm {
+					out = append(out, pv)
+				}
+			}
+		}
+		return out
+	}
 	nIdx := 1 + pickWeighted(r, []int{70, 30}) // several repositories, none pinned
 	idx := make([]Index, nIdx)
 	for i := range idx {
@@ -90,6 +115,15 @@ func genMulti(r *gal.Rand, tier string) *Case {
 			}
 			return d
 		}
+		if len(pures) > 0 && r.Chance(1, 5) {
+			d := gal.Pick(r, pures)
+			for _, x := range pure[d] {
+				if x == self {
+					return ""
+				}
+			}
+			return d
+		}
 		t := gal.Pick(r, names)
 		if r.Chance(40, 100) {
 			return passingConstraint(r, t, vers[t])
@@ -99,7 +133,7 @@ func genMulti(r *gal.Rand, tier string) *Case {
 	for _, nm := range names {
 		origin := gal.Pick(r, []string{nm, nm, "o1", ""})
 		prio := uint64(0)
-		if r.Chance(1, 8) {
+		if r.Chance(1, 8) || len(providesPure(nm)) > 0 && r.Chance(2, 3) {
 			prio = uint64(1 + r.Intn(20))
 		}
 		vs := vers[nm]
@@ -126,6 +160,9 @@ func genMulti(r *gal.Rand, tier string) *Case {
 				default:
 					p.Provides = append(p.Provides, v)
 				}
+			}
+			if k == len(vs)-1 {
+				p.Provides = append(p.Provides, providesPure(nm)...)
 			}
 			for j, nd := 0, pickWeighted(r, []int{25, 35, 25, 15}); j < nd; j++ {
 				d := dep(nm)
@@ -160,6 +197,10 @@ func genMulti(r *gal.Rand, tier string) *Case {
 		for j, m := 0, 1+pickWeighted(r, []int{35, 35, 20, 10}); j < m; j++ {
 			if len(virts) > 0 && r.Chance(1, 5) {
 				w = append(w, gal.Pick(r, virts))
+				continue
+			}
+			if len(pures) > 0 && r.Chance(1, 6) {
+				w = append(w, gal.Pick(r, pures))
 				continue
 			}
 			t := gal.Pick(r, names)
